@@ -7,8 +7,10 @@ namespace glm
 	{
 		GLM_STATIC_ASSERT(std::numeric_limits<T>::is_integer, "'isPowerOfTwo' only accept integer inputs");
 
-		vec<L, T, Q> const Result(abs(Value));
-		return equal(Result & (Result - vec<L, T, Q>(1)), vec<L, T, Q>(0));
+		vec<L, bool, Q> Result;
+		for(length_t i = 0; i < L; ++i)
+			Result[i] = isPowerOfTwo(Value[i]);
+		return Result;
 	}
 
 	template<length_t L, typename T, qualifier Q>
